@@ -49,6 +49,13 @@ class FakeSock:
         return c
 
     def sendall(self, data):
+        if getattr(self, 'timeout_at', None) is not None and len(self.sends) == self.timeout_at:
+            # the peer has not read for longer than the send time-out: a part of the data went out
+            import socket
+            self.out += data[:max(1, len(data) // 2)]
+            self.sends.append(data[:max(1, len(data) // 2)])
+            self.cut_at = len(self.out)
+            raise socket.timeout('timed out')
         self.out += data
         self.sends.append(data)
 
